@@ -328,7 +328,7 @@ Definition flags_ok (v : val) : bool :=
 Definition sres_fault_v (r : sres) : val :=
   match r with
   | SOk _ _ => L []
-  | SWeights _ => L [I (-777)%Z]            (* the code panics here *)
+  | SWeights _ => L [I (-2)%Z]              (* the code panics here ([expect("invalid weights")]) *)
   | SEmptyRange => L [I (-3)%Z]
   | SFault => L [I (-1)%Z]
   end.
@@ -374,8 +374,7 @@ Definition step_exact (m o : val) : bool :=
   match m, o with
   | L [mw; mex], L [ow; oex] =>
       nlist_eqb (concat (v_cls mw)) (concat (v_cls ow)) && set_eqb (v_list v_nat mex) (v_list v_nat oex)
-  | L [I z], L [I z'] => Z.eqb z (-777) && Z.eqb z' (-777)
-  | _, _ => false
+  | _, _ => false     (* a fault marker on either side never agrees: inside the domain neither side faults *)
   end.
 
 (** EXACT line, chain stream: [sd] = the seeded part of the model output, [out] = implementation output *)
